@@ -1,6 +1,6 @@
 """C04 — every reward is credited exactly once to the cell(s) that produced the point."""
 from .. import configs
-from ..algorun import replay_algo, run_algo_task
+from ..algorun import bystander_tasks, replay_algo, run_algo_task
 from ..ledger import LedgerOracle, WrapperLedgerOracle, ZoomingLedgerOracle, recording_classes
 from ..world import InterposedQuery
 
@@ -48,6 +48,10 @@ def tasks(tier, seed):
         # the same with get_last_point() interposed between pull and receive_reward in at most one (thorough: two) rounds
         ts.append({"kind": "algo", "label": "fullq/%s/%s" % (label, cfg["part"]), "cfg": cfg, "mode": "full", "T": (3 if vroom else 5) if tier == "quick" else (4 if vroom else 7),
                    "R": list(configs.R2), "query_k": 1 if tier == "quick" else 2, "interpose": True})
+        # a second instance alive next to the object under check, on a box that is not [0,1]^d
+        ts += bystander_tasks("%s/%s" % (label, cfg["part"]), configs.shifted(cfg), [1.0, -1.0] if wrapper else configs.R3,
+                              T_long=8 if vroom else (100 if wrapper else 60), T_short=6 if vroom else (16 if wrapper else 24),
+                              k=1 if tier == "quick" else 2)
         bases = ("peak", "alt", "off8") if tier == "quick" else ("peak", "alt", "off8", "zero", "negpeak", "twopeak")
         if wrapper and tier == "quick":
             if cfg["part"] != "Binary":
